@@ -330,14 +330,40 @@ class StmtMixin:
     def ex_If(self, st, env):
         c = self.truthy(self.ev(st.test, env))
         if self.path.branch(c):
+            self.narrow(st.test, env, True)
             self.exec_block(st.body, env)
         else:
+            self.narrow(st.test, env, False)
             self.exec_block(st.orelse, env)
+
+    def narrow(self, test, env, truth):
+        """Optional[T] locals known not to be None on this branch become plain T."""
+        if isinstance(test, ast.UnaryOp) and isinstance(test.op, ast.Not):
+            return self.narrow(test.operand, env, not truth)
+        if isinstance(test, ast.BoolOp):
+            if (isinstance(test.op, ast.And) and truth) or (isinstance(test.op, ast.Or) and not truth):
+                for v in test.values:
+                    self.narrow(v, env, truth)
+            return
+        name = None
+        notnone = False
+        if isinstance(test, ast.Name):
+            name, notnone = test.id, truth
+        elif (isinstance(test, ast.Compare) and len(test.ops) == 1 and isinstance(test.left, ast.Name)
+              and isinstance(test.comparators[0], ast.Constant) and test.comparators[0].value is None):
+            name = test.left.id
+            if isinstance(test.ops[0], ast.IsNot):
+                notnone = truth
+            elif isinstance(test.ops[0], ast.Is):
+                notnone = not truth
+        if name and notnone and isinstance(env.locals.get(name), VOpt):
+            env.locals[name] = env.locals[name].val
 
     def ex_Assert(self, st, env):
         c = self.truthy(self.ev(st.test, env))
         if not self.path.branch(c):
             self.raise_builtin("AssertionError")
+        self.narrow(st.test, env, True)
 
     def ex_Raise(self, st, env):
         if st.exc is None:
